@@ -51,7 +51,7 @@ func c01Prods(extra bool) []enum.Prod {
 		node("let1", 2, func(k []V) V { return form("let", model.List(sym("x"), k[0]), k[1]) }),
 		node("let2", 3, func(k []V) V { return form("let", model.Vec(sym("x"), k[0]), k[1], k[2]) }),
 	)
-	params := []V{model.Vec(sym("x")), model.List(sym("&"), sym("y")), model.Vec(sym("x"), sym("&"), sym("y"))}
+	params := []V{model.Vec(sym("x")), model.List(sym("&"), sym("y")), model.Vec(sym("x"), sym("&"), sym("y")), model.Vec()}
 	for pi, p := range params {
 		p := p
 		ps = append(ps,
@@ -332,7 +332,7 @@ func init() {
 		var tier string
 		core := &vf.Family{
 			Name:   "core-forms",
-			Bounds: "all programs of weight <=5 (quick) / <=6 (thorough) over 11 leaves (nil 0 1 x y (t! 0) (t! 1) (do) (list) 'a false) and 24 forms (if/do/let/fn with 3 parameter shapes/def/application/+/list), each via READ then EVAL in a fresh child scope",
+			Bounds: "all programs of weight <=5 (quick) / <=6 (thorough) over 11 leaves (nil 0 1 x y (t! 0) (t! 1) (do) (list) 'a false) and 27 forms (if/do/let/fn with 4 parameter shapes []/[x]/(& y)/[x & y]/def/application/+/list), each via READ then EVAL in a fresh child scope",
 			Setup:  func(t string) { tier = t; setup(t) },
 			N:      func(t string) int64 { tier = t; return gOf(t).Count(0, wOf(t)) },
 			Describe: func(i int64) string { return gOf(tier).Unrank(0, i).Lisp() },
@@ -373,11 +373,59 @@ func init() {
 				rg.compareWithModel(recProg(i), []string{"x", "y", "f"}, r, false)
 			},
 		}
+		// scoping family: tiny alphabet, deep nesting of scope-forming constructs only
+		var sg, sgFull *enum.Grammar
+		scopeW := func() int {
+			if tier == "thorough" {
+				return 10
+			}
+			return 9
+		}
+		sgOf := func() *enum.Grammar {
+			if sg == nil {
+				sg = c01ScopeGrammar(scopeW(), false)
+			}
+			return sg
+		}
+		sgFullOf := func() *enum.Grammar {
+			if sgFull == nil {
+				w := 7
+				if tier == "thorough" {
+					w = 9
+				}
+				sgFull = c01ScopeGrammar(w, true)
+			}
+			return sgFull
+		}
+		scopeN := func() (int64, int64) {
+			fw := 7
+			if tier == "thorough" {
+				fw = 9
+			}
+			return sgOf().Count(0, scopeW()), sgFullOf().Count(0, fw)
+		}
+		scopeProg := func(i int64) V {
+			a, _ := scopeN()
+			if i < a {
+				return sgOf().Unrank(0, i)
+			}
+			return sgFullOf().Unrank(0, i-a)
+		}
+		scoping := &vf.Family{
+			Name:   "scoping",
+			Bounds: "all programs of weight <=9 (quick) / <=10 (thorough) over leaves {x, y, 1, 2} and only scope-forming constructs (let x, let y, zero-parameter closure, call of it, one-parameter fn applied in place), plus weight <=7 / <=9 with list, if and (do (def x ..) ..) added: closures made in one scope, shadowed later in tail position, then called",
+			Setup:  func(t string) { tier = t; setup(t) },
+			N:      func(t string) int64 { tier = t; a, b := scopeN(); return a + b },
+			Describe: func(i int64) string { return scopeProg(i).Lisp() },
+			Run: func(i int64, r *vf.Rec) {
+				rg.compareWithModel(scopeProg(i), []string{"x", "y"}, r, false)
+			},
+		}
 		return &vf.Check{
 			ID: "C01", Level: "model_checking",
 			Rule: "every program of the bounded grammar is evaluated by the real EVAL and by an independent definitional interpreter; result (or error kind and thrown value), ordered effect trace and final bindings of x, y, f must agree; non-trivial = the program has effects or binds a global",
 			Assumptions: []string{"the definitional interpreter (harness/internal/model/interp.go) transcribes the mal definition as amended by the README", "error messages are not compared, only value-vs-error, thrown payload, trace and bindings", "programs that run out of fuel on either side are skipped and counted"},
-			Families: []*vf.Family{core, rec},
+			Families: []*vf.Family{core, rec, scoping},
 		}
 	})
 }
